@@ -1045,9 +1045,14 @@ class Extractor:
                         slots.append(len(seen))
                     elif x[0] not in ('mark', 'assume') and x[1] != ('excAt',):
                         seen.add(as_chain(x[2]))
-                plist.append({'events': evs, 'sig': tuple(sig), 'end': status, 'fill_slots': slots,
-                              'segs': segments(items)})
-            public = not (f.name.startswith('_') and not f.name.startswith('__')) and f.name != 'require_writable'
+                segs, nested = segments(items)
+                if nested and status == 'ret' and public_name(f):
+                    msg = '%s (%s:%d): a loop with events nested inside a loop body (only outermost loops are ' \
+                          'proved for every number of iterations)' % (q, f.file, f.node.lineno)
+                    if msg not in self.failures:
+                        self.failures.append(msg)
+                plist.append({'events': evs, 'sig': tuple(sig), 'end': status, 'fill_slots': slots, 'segs': segs})
+            public = public_name(f)
             tab[q] = {'file': f.file, 'line': f.node.lineno, 'end_line': f.node.end_lineno, 'public': public,
                       'paths': plist, 'stmt_events': stmt_events, 'stmt_map': stmt_map(f.node),
                       'selfname': f.selfname}
@@ -1087,11 +1092,16 @@ def query_functions(root=None):
     return out
 
 
+def public_name(f):
+    return not (f.name.startswith('_') and not f.name.startswith('__')) and f.name != 'require_writable'
+
+
 def segments(items):
     """the segmented form of an unrolled path: [(isLoop, [alternative event lists])]; only the OUTERMOST loops become
     loop segments (loops nested in them, or in callees inlined into them, stay unrolled inside the alternatives)"""
     segs, straight = [], []
     depth, cur_lid, body, alts = 0, None, None, None
+    nested = False
 
     def ev(x):
         return ('mayFill',) if x[0] == 'fill' else x[1]
@@ -1122,6 +1132,8 @@ def segments(items):
                     body = None
                 continue
         if depth >= 1:
+            if depth >= 2 and ev(x)[0] not in ('call', 'requireWritable', 'ret'):
+                nested = True
             body.append(ev(x))
         else:
             if alts is not None:
@@ -1131,7 +1143,7 @@ def segments(items):
         segs.append((True, alts))
     if straight:
         segs.append((False, [straight]))
-    return segs
+    return segs, nested
 
 
 def as_chain(sid):
